@@ -1220,6 +1220,9 @@ class Engine:
                 reg.add(f'result of op#{opi} {name}', outcome[1])
             if on_op is not None:
                 on_op(self, opi, op, outcome)
+            # temporaries passed to helpers die here (nothing of the harness
+            # keeps them alive), as they do in a caller's loop
+            args = val = None
         self.probe('arrays_monitored', len(reg.items))
         self.n_monitored = len(reg.items)
         self.probe('helper_args_monitored', sum(
